@@ -1,2 +1,3 @@
 import OtelVerif.Props.C07
+import OtelVerif.Props.C08
 import OtelVerif.Props.C09
